@@ -199,7 +199,7 @@ def ensure_coq_built(ctx=None):
                 os.path.getmtime(os.path.join(COQ, "_CoqProject")) < newest_v_listing_mtime():
             subprocess.run([os.path.join(VERIF, "setup.sh"), "--no-coqchk", "--makefile-only"], check=True,
                            stdout=subprocess.DEVNULL)
-        p = subprocess.run(["timeout", "3000", "make", "-C", COQ, "-j%d" % NCPU], stdout=subprocess.PIPE,
+        p = subprocess.run(["timeout", "3000", "make", "-k", "-C", COQ, "-j%d" % NCPU], stdout=subprocess.PIPE,
                            stderr=subprocess.STDOUT)
         if p.returncode != 0:
             return False, p.stdout.decode(errors="replace")[-4000:]
